@@ -276,6 +276,20 @@ def r124(ctx, R):
                                   if isinstance(x, ast.Name)
                                   and _is_path_uuid(ctx, impl, x.id)}
                     argn = C.names_in(arg) if arg is not None else set()
+                    # a transaction function that is not nested in the
+                    # handler receives the handler's values as parameters:
+                    # read the argument in the handler's names
+                    if c.parent is None and argn & set(c.params):
+                        tr = set()
+                        for g_ in [impl] + [h_ for h_ in prog.funcs
+                                            if h_.parent is impl]:
+                            for s_ in ctx.cg.calls_in(g_):
+                                if c in s_.callees:
+                                    for pn in argn & set(c.params):
+                                        a_ = C.arg_for_param(s_.node, c, pn)
+                                        if a_ is not None:
+                                            tr |= C.names_in(a_)
+                        argn = (argn - set(c.params)) | tr
                     ifs = C.guarding_ifs(C.stmt_of(dc[0]), c.node)
                     cond_ok = all(isinstance(i.test, ast.Name)
                                   and i.test.id in names and br == 'body'
